@@ -51,6 +51,7 @@ def lineOf (w : Bool) (auth : List Nat) : GOp → Line
   | .complete => ⟨.gate .complete, [], auth, 0⟩
   | .migrate _ o => ⟨.gate .migrate, [o], auth, 0⟩
   | .upgrade o => ⟨.gate .upgrade, [o], auth, 0⟩
+  | .setCap _ => ⟨.gate .setcap, [], auth, 0⟩
 
 theorem isPausable_tok (o : Fungible.Op) : isPausable (.fungible (kindOf o)) = pausableOp o := by
   cases o <;> rfl
@@ -127,12 +128,20 @@ theorem vList_none {m : Mon} {l : Line} {o : Obs}
   · rw [if_pos (by simp)]
   · rw [if_neg (by simp), if_neg (fun h => h.2 h1), if_neg (fun h => h h1), if_neg h2, if_neg h3]
 
-theorem vCap_none {m : Mon} {l : Line} {o : Obs} (h1 : o.st.cap = some m.cap) (h2 : o.st.sup ≤ m.cap) :
-    vCap m l o = none := by
+theorem vCap_none {m : Mon} {l : Line} {o : Obs} (h0 : ¬ (o.ok ∧ l.call = .gate .setcap)) (h1 : o.st.cap = some m.cap)
+    (h2 : ¬ (m.sup < o.st.sup ∧ o.st.sup > m.cap)) : vCap m l o = none := by
   unfold vCap
   by_cases hk : m.kind ≠ .cap
   · rw [if_pos hk]
-  · rw [if_neg hk, if_neg (fun h => h.2 h1), if_neg (fun h => h h1), if_neg (by omega)]
+  · rw [if_neg hk, if_neg (fun h => h0 ⟨h.1, h.2.1⟩), if_neg h0, if_neg (fun h => h.2 h1), if_neg (fun h => h h1), if_neg h2]
+
+/-- an accepted `set_cap` that leaves a non-negative cap -/
+theorem vCap_setcap {m : Mon} {l : Line} {o : Obs} (hok : o.ok = true) (hl : l.call = .gate .setcap) (c : Int)
+    (hc : o.st.cap = some c) (h0 : 0 ≤ c) : vCap m l o = none := by
+  unfold vCap
+  by_cases hk : m.kind ≠ .cap
+  · rw [if_pos hk]
+  · rw [if_neg hk, if_neg (by rw [hc]; simp; omega), if_pos ⟨hok, hl⟩]
 
 theorem vMig_none {m : Mon} {l : Line} {o : Obs}
     (h1 : ¬ (o.ok ∧ (l.call = .gate .migrate ∨ l.call = .gate .ensure) ∧ ¬ m.credit))
